@@ -22,36 +22,36 @@ Declared(env, p) == p = "" \/ \E i \in 1..Len(env) : env[i].pfx = p
 RECURSIVE Expand(_, _)
 Expand(n, env) ==
   IF n.kind # "el" THEN [kind |-> IF n.kind = "cdata" THEN "text" ELSE n.kind, ns |-> "", name |-> "", attrs |-> {}, kids |-> << >>, text |-> n.text]
-  ELSE LET e2 == env \o n.decls
+  ELSE LET e2 == TLCEval(env \o n.decls)     \* (TLCEval: without it TLC re-derives the scope of every ancestor at every use, exponentially in the depth)
            ns == IF n.pfx = "" THEN (IF Declared(e2, "") /\ \E i \in 1..Len(e2) : e2[i].pfx = "" THEN Lookup(e2, "") ELSE "") ELSE Lookup(e2, n.pfx)
        IN [kind |-> "el", ns |-> ns, name |-> n.local,
            attrs |-> {[ns |-> IF n.attrs[i].pfx = "" THEN "" ELSE Lookup(e2, n.attrs[i].pfx), n |-> n.attrs[i].local, v |-> n.attrs[i].val] : i \in 1..Len(n.attrs)},
-           kids |-> [i \in 1..Len(n.kids) |-> Expand(n.kids[i], e2)], text |-> ""]
+           kids |-> TLCEval([i \in 1..Len(n.kids) |-> Expand(TLCEval(n.kids[i]), e2)]), text |-> ""]
 \* well-formed w.r.t. namespaces: every prefix used is declared in scope
 RECURSIVE WF(_, _)
 WF(n, env) == n.kind # "el" \/
-              LET e2 == env \o n.decls IN
+              LET e2 == TLCEval(env \o n.decls) IN
               /\ Declared(e2, n.pfx) /\ \A i \in 1..Len(n.attrs) : n.attrs[i].pfx # "" => Declared(e2, n.attrs[i].pfx)
               /\ \A i, j \in 1..Len(n.attrs) : i # j => <<n.attrs[i].pfx, n.attrs[i].local>> # <<n.attrs[j].pfx, n.attrs[j].local>>
               /\ \A i \in 1..Len(n.kids) : WF(n.kids[i], e2)
 \* adjacent character data merges (a reader cannot tell "a" + CDATA "b" from "ab")
 RECURSIVE Canon(_)
-MergeText(ks) == LET F[i \in 0..Len(ks)] ==
-                       IF i = 0 THEN << >>
-                       ELSE IF ks[i].kind = "text" /\ F[i - 1] # << >> /\ F[i - 1][Len(F[i - 1])].kind = "text"
-                            THEN [F[i - 1] EXCEPT ![Len(F[i - 1])].text = @ \o "+" \o ks[i].text]
-                            ELSE Append(F[i - 1], ks[i])
-                 IN F[Len(ks)]
-Canon(t) == IF t.kind # "el" THEN t ELSE [t EXCEPT !.kids = MergeText([i \in 1..Len(t.kids) |-> Canon(t.kids[i])])]
+RECURSIVE MergeFrom(_, _, _)
+MergeFrom(ks, i, acc) == IF i > Len(ks) THEN acc
+                         ELSE MergeFrom(ks, i + 1, TLCEval(IF ks[i].kind = "text" /\ acc # << >> /\ acc[Len(acc)].kind = "text"
+                                                           THEN [acc EXCEPT ![Len(acc)].text = @ \o "+" \o ks[i].text]
+                                                           ELSE Append(acc, ks[i])))
+MergeText(ks) == MergeFrom(ks, 1, << >>)
+Canon(t) == IF t.kind # "el" THEN t ELSE [t EXCEPT !.kids = MergeText(TLCEval([i \in 1..Len(t.kids) |-> Canon(TLCEval(t.kids[i]))]))]
 
 \* token stream of an expanded tree, as token kinds
 RECURSIVE Tokens(_)
 Flat(ss) == LET F[i \in 0..Len(ss)] == IF i = 0 THEN << >> ELSE F[i - 1] \o ss[i] IN F[Len(ss)]
-Tokens(t) == IF t.kind # "el" THEN <<t.kind>> ELSE <<"start">> \o Flat([i \in 1..Len(t.kids) |-> Tokens(t.kids[i])]) \o <<"end">>
+Tokens(t) == IF t.kind # "el" THEN <<t.kind>> ELSE <<"start">> \o Flat(TLCEval([i \in 1..Len(t.kids) |-> Tokens(TLCEval(t.kids[i]))])) \o <<"end">>
 Balanced(toks) == LET D[i \in 0..Len(toks)] == IF i = 0 THEN 0 ELSE D[i - 1] + (IF toks[i] = "start" THEN 1 ELSE IF toks[i] = "end" THEN -1 ELSE 0) IN
                   /\ D[Len(toks)] = 0 /\ \A i \in 1..(Len(toks) - 1) : D[i] >= 1 /\ Len(toks) >= 2 /\ toks[1] = "start" /\ toks[Len(toks)] = "end"
 RECURSIVE NEl(_), NLeaf(_)
 Sum(s) == LET F[i \in 0..Len(s)] == IF i = 0 THEN 0 ELSE F[i - 1] + s[i] IN F[Len(s)]
-NEl(t) == IF t.kind # "el" THEN 0 ELSE 1 + Sum([i \in 1..Len(t.kids) |-> NEl(t.kids[i])])
-NLeaf(t) == IF t.kind # "el" THEN 1 ELSE Sum([i \in 1..Len(t.kids) |-> NLeaf(t.kids[i])])
+NEl(t) == IF t.kind # "el" THEN 0 ELSE 1 + Sum(TLCEval([i \in 1..Len(t.kids) |-> NEl(TLCEval(t.kids[i]))]))
+NLeaf(t) == IF t.kind # "el" THEN 1 ELSE Sum(TLCEval([i \in 1..Len(t.kids) |-> NLeaf(TLCEval(t.kids[i]))]))
 =============================================================================
